@@ -84,21 +84,52 @@ def raw_field(spec, ti, shape):
     return vals.astype('f4').reshape(shape)
 
 
+def all_tracers(spec):
+    """the regular tracers plus, for an irregular file, the tracer that
+    takes one slot in the interior time blocks"""
+    irr = spec.get('irregular')
+    return list(spec['tracers']) + ([irr['alt']] if irr else [])
+
+
+def layout(spec):
+    """[(time index, tracer, field index)] in file order.  An irregular
+    file (spec['irregular'] = {'slot': i, 'alt': tracer}) carries tracer
+    `alt` instead of tracer i in every interior time block; first and last
+    block have the regular layout."""
+    irr = spec.get('irregular')
+    out = []
+    for t in range(spec['nt']):
+        for ti, tr in enumerate(spec['tracers']):
+            if irr and ti == irr['slot'] and 0 < t < spec['nt'] - 1:
+                out.append((t, irr['alt'], len(spec['tracers'])))
+            else:
+                out.append((t, tr, ti))
+    return out
+
+
 def content(spec):
-    c = {'vars': {}, 'meta': {}, 'tau0': [], 'tau1': []}
+    c = {'vars': {}, 'meta': {}, 'tau0': [], 'tau1': [], 'times': {}}
     nt = spec['nt']
     for t in range(nt):
         c['tau0'].append(spec['tau0'] + t * spec['dtau'])
         c['tau1'].append(spec['tau0'] + (t + 1) * spec['dtau'])
-    for ti, tr in enumerate(spec['tracers']):
+    full = {}
+    for ti, tr in enumerate(all_tracers(spec)):
         k = key_of(spec, tr)
-        c['vars'][k] = raw_field(spec, ti, (nt, tr['nl'], spec['nj'],
-                                            spec['ni']))
+        full[ti] = raw_field(spec, ti, (nt, tr['nl'], spec['nj'],
+                                        spec['ni']))
+        c['times'][k] = []
         c['meta'][k] = {'scale': tr['scale'], 'unit': tr['unit'],
                         'norow': bool(tr.get('norow')),
                         'category': spec['cats'][tr['cat']],
                         'tracerid': tr['id'], 'baseunit': tr['baseunit'],
                         'start': (spec['i0'], spec['j0'], tr['k0'])}
+    fidx = {}
+    for t, tr, fi in layout(spec):
+        c['times'][key_of(spec, tr)].append(t)
+        fidx[key_of(spec, tr)] = fi
+    for k, ts in c['times'].items():
+        c['vars'][k] = full[fidx[k]][ts]
     return c
 
 
@@ -106,10 +137,10 @@ def encode(spec):
     c = content(spec)
     out = [rec('CTM bin 02'.ljust(40).encode('ascii')),
            rec(spec['toptitle'].ljust(80).encode('ascii'))]
-    for t in range(spec['nt']):
-        for ti, tr in enumerate(spec['tracers']):
+    for t, tr, fi in layout(spec):
+        if True:
             k = key_of(spec, tr)
-            arr = c['vars'][k][t]
+            arr = c['vars'][k][c['times'][k].index(t)]
             nl, nj, ni = arr.shape
             out.append(rec(spec['modelname'].ljust(20).encode('ascii') +
                            struct.pack('>ffii', spec['modelres'][0],
@@ -132,7 +163,7 @@ def encode(spec):
 
 def tracerinfo_text(spec):
     lines = ['# tracerinfo.dat written by pncmon (reference)']
-    for tr in spec['tracers']:
+    for tr in all_tracers(spec):
         if tr.get('norow'):
             continue
         num = spec['offsets'][tr['cat']] + tr['id']
